@@ -433,6 +433,12 @@ func runRealCase(t *testing.T, r *rep.Reporter, c *rep.Case, k int) {
 		inner, closeInner = mod.(module.DeliveryTarget), func() {}
 	}
 	tap := mx.NewTap(inst, lg, inner)
+	// Environment faults at the body stage (own PRNG stream: no other draw moves).
+	bf := drawBodyFault(r.Seed(), k)
+	if bf != nil {
+		tap.BodyHook = bf.hook(lg, inst)
+		sc.Desc += " bodyfault=" + bf.String()
+	}
 	var bounce module.DeliveryTarget
 	bname := "c01rb" + fmt.Sprint(k)
 	if sc.Bounce {
@@ -453,6 +459,19 @@ func runRealCase(t *testing.T, r *rep.Reporter, c *rep.Case, k int) {
 		ncommit += len(tx.CommittedRcpts)
 	}
 	r.Count("srv_transactions", int64(len(txns)))
+	bfUsed := bf.used()
+	if len(bfUsed) > 0 {
+		r.Count("real_cases_with_body_fault_"+sc.Kind, 1)
+		r.Count("bodyfault_injected_"+bf.Kind, int64(len(bfUsed)))
+		r.Count("bodyfault_injected_"+bf.Kind+"_"+sc.Kind, int64(len(bfUsed)))
+		for _, u := range bfUsed {
+			if strings.HasPrefix(u, "try1 ") {
+				r.Count("bodyfault_injected_on_first_attempt", 1)
+			} else {
+				r.Count("bodyfault_injected_on_retry", 1)
+			}
+		}
+	}
 	r.Count("srv_recipient_commits", int64(ncommit))
 
 	var txl []string
@@ -465,7 +484,7 @@ func runRealCase(t *testing.T, r *rep.Reporter, c *rep.Case, k int) {
 	}
 	evaluate(r, c, sc, res, lg, inst, bname, !srvUTF8, func(m *msgSpec, atts []*attempt) {
 		buildSrvViews(lg.Events(), inst, srvName, lmtp, txns, m, atts)
-	}, map[string]any{"server_script_nonok": ss.used, "server_transactions": txl})
+	}, map[string]any{"server_script_nonok": ss.used, "server_transactions": txl, "body_faults_injected": bfUsed})
 	r.Count("events", int64(lg.Len()))
 	if k < 3 {
 		r.Sample(map[string]any{"scenario": sc.literal(), "server_script_nonok": ss.used})
@@ -480,5 +499,8 @@ func runRealCase(t *testing.T, r *rep.Reporter, c *rep.Case, k int) {
 	if m.hasOdd() {
 		shape += "/odd-domain"
 	}
-	c.Done(shape, ss.nonOK > 0)
+	if len(bfUsed) > 0 {
+		shape += "/bodyfault=" + bf.String() + ":" + strings.Join(bfUsed, ";")
+	}
+	c.Done(shape, ss.nonOK > 0 || len(bfUsed) > 0)
 }
